@@ -46,6 +46,8 @@ def obs(fn):
 def spelled(titles, si, r, c, k):
     from excel2pycl import Cell
     L = wbspec.get_column_letter(c)
+    if (r + c + si) % 4 == 0:
+        L = L.lower()          # column letters as a caller may type them
     if k == 0:
         return Cell(si, c - 1, r - 1)
     if k == 1:
@@ -181,6 +183,15 @@ def run_book(ctx, bi, ncalls, replay=None, source=None):
         return refB[key]
 
     exA, exB = mk(stagesA[0]), mk_noisy(ovB)
+    if bi % 2 and book.whole is not None and book.whole.ok:
+        # every second book: the scheduled executor is loaded from the class FILE (one file name for all books of the process, each in
+        # a directory of its own) - the references stay on the class object
+        fx, _ = pipeline.file_executor(book.whole.value, ctx.workdir, f'cls_{bi}')
+        if fx.ok:
+            exA = fx.value
+            if stagesA[0]:
+                exA.set_cells([Cell(si, c - 1, r_ - 1, v) for (si, r_, c), v in stagesA[0].items()])
+            r.count('scheduled_executor_loaded_from_file')
     case0 = {'book': bi, 'spec': spec, 'overridesA': [[s, wbspec.a1(x, y), wbspec.enc(v)] for (s, x, y), v in ovA.items()],
              'overridesB': [[s, wbspec.a1(x, y), wbspec.enc(v)] for (s, x, y), v in ovB.items()], 'stagesA': cuts}
     LAST_CASE.clear()
